@@ -16,7 +16,8 @@ for m in sorted(glob.glob("/verif/seeded/*/meta.json")):
         if line.startswith("== "):
             parts = line.split()
             res[parts[1]] = parts[2] + " " + parts[3]
-    ok = all(res.get(c, "").startswith("exit=1") for c in checks)
+    # caught = exit status 1 AND at least one VIOLATION line (a crash of the check itself does not count)
+    ok = all(res.get(c, "").startswith("exit=1") and not res.get(c, "").endswith("violations=0") for c in checks)
     rows.append((sid, d["property"], checks, res, ok))
     print(f"{sid:8s} {d['property']} {'CAUGHT' if ok else 'MISSED'} {res}", flush=True)
 print(f"{sum(r[4] for r in rows)}/{len(rows)} seeds caught by every check listed for them")
